@@ -3,6 +3,7 @@
 
 mod ctl;
 mod det;
+mod lx;
 mod dxrun;
 mod par;
 mod props;
@@ -60,6 +61,7 @@ fn main() {
             "C01" => props::c01::replay(&file),
             "C02" => props::c02::replay(&file),
             "C05" => props::pad::replay_c05(&file),
+            "C08" => props::c08::replay(&file),
             "C09" => props::c09::replay(&file),
             "C10" => props::c10::replay(&file),
             "C11" => props::c11::replay(&file),
@@ -78,6 +80,7 @@ fn main() {
         "C04" => props::pad::run_c04(tier),
         "C05" => props::pad::run_c05(tier),
         "C07" => props::c07::run(tier),
+        "C08" => props::c08::run(tier),
         "C09" => props::c09::run(tier),
         "C10" => props::c10::run(tier),
         "C11" => props::c11::run(tier),
